@@ -100,3 +100,25 @@ Print Assumptions C02_unbounded_evaluation.
 Theorem C02_oracle_is_permutation : forall l1 l2, mset_eqb l1 l2 = true <-> Permutation l1 l2.
 Proof. exact mset_eqb_iff. Qed.
 Print Assumptions C02_oracle_is_permutation.
+
+(* ---- tie C: Intersection._sweep with the _SourceState class, as the code has them (Gallina translation of
+   the SOURCE TEXT regenerated from /repo on every run; classes become records, methods functions
+   returning the updated record; the index frozenset is read in ascending order) ---- *)
+From CG Require Import Gen.Source Proofs.GenEq6.
+
+Theorem C02_source_intersection_is_model : forall fuel streams idxs,
+  fs_ok (length streams) idxs -> (total_len streams < fuel)%nat ->
+  g_inter_sweep fuel streams idxs = Loop.RDone (inter_sweep streams (fun i => zmem (Z.of_nat i) idxs)).
+Proof. exact g_inter_sweep_eq. Qed.
+Print Assumptions C02_source_intersection_is_model.
+
+(* hence per-event exactness of the k-way intersection, stated of the code text *)
+Theorem C02_source_intersection_exact : forall fuel masks streams idxs,
+  fs_ok (length streams) idxs -> (total_len streams < fuel)%nat -> (2 <= length streams)%nat ->
+  (forall i, (i < length streams)%nat -> zmem (Z.of_nat i) idxs = emit_sel masks i) ->
+  Forall (Forall wf_ivl) streams -> Forall disjoint_sorted streams ->
+  exists l, g_inter_sweep fuel streams idxs = Loop.RDone l /\ Permutation.Permutation l (inter_ref masks streams).
+Proof. exact src_inter_is_ref. Qed.
+Print Assumptions C02_source_intersection_exact.
+
+Example C02_source_intersection_fetch_is_model : _ := g_inter_fetch_is_model.
